@@ -17,6 +17,8 @@ TRUSTED = ["rustc nightly MIR construction", "shred-facts driver", "shredlint ca
 RULE_TEXT = "one obligation per body of the placement cone and per inventory class; zero-count classes are backed by positive examples in the probe crate (thorough)"
 
 ID_TYPES = ("shred::world::ResourceId", "shred::dispatch::dispatcher::SystemId")
+import re
+NUMERIC = re.compile(r"[<\[ ,&](u8|u16|u32|u64|usize|i8|i16|i32|i64|isize)[>\], ]")
 
 
 def cone(ctx, facts):
@@ -33,7 +35,7 @@ def scan(ctx, report, facts, config, pfx="C19"):
         hi = I.hash_iterations(b)
         report.ob(pfx + ".NOHASHITER", b.qname, not hi, "no hash-map iteration" if not hi else
                   "iterates a hash container (%s): the plan would depend on hash order" % hi[0][1].short(), site=b.loc(hi[0][0]) if hi else b.loc(), config=config)
-        ou = I.order_uses(b, ID_TYPES)
+        ou = I.order_uses(b, ("",))  # every ordering-consulting call of the body
         bad = []
         for bb, c in ou:
             if c.name in ("sort", "sort_unstable") and "[shred::world::ResourceId]" in c.inst_path:
@@ -42,6 +44,9 @@ def scan(ctx, report, facts, config, pfx="C19"):
                 continue
             if b.container == "trait_impl" and b.trait in ("std::cmp::Ord", "std::cmp::PartialOrd") and (b.raw.get("span", {}).get("exp")):
                 continue  # inside the derived comparison itself
+            if not any(ty in c.inst_path for ty in ID_TYPES) and NUMERIC.search(c.inst_path):
+                continue  # ordering of plain numbers (running times, counts) is part of the documented heuristic
+            # ids, or a generic element type that the placement code instantiates with ids
             bad.append((bb, c))
         hu = I.hash_uses(b, ID_TYPES)
         bad += hu
